@@ -94,7 +94,7 @@ Proof.
 Qed.
 
 Lemma pc_eq_dec (a b : pc) : {a = b} + {a <> b}.
-Proof. decide equality. Qed.
+Proof. repeat decide equality. Qed.
 
 Definition plain_ok (t : nat) (th : thr) (f : nat -> tview) : Prop :=
   (run th = TRun t /\ tq th = [] /\ pf (f t) <> PDone) \/
@@ -474,7 +474,7 @@ Proof.
     destruct (repr_nil_inv _ _ _ _ RQ); [discriminate|discriminate].
   - set (yc := t_endround (gtask s c) false).
     destruct (inv_handover _ c w (tvw yc) (KCoro, PCs, false) I) as (Ww & Nwc & _ & _);
-      [cbn [v_tv]; rewrite upd_same; exact Hh|reflexivity|reflexivity|reflexivity|].
+      [cbn [v_tv]; rewrite upd_same; exact Hh|reflexivity|reflexivity|reflexivity|intros e; discriminate|].
     cbn [v_tv] in Ww. rewrite upd_other in Ww by exact Nwc.
     assert (Lw : w < length (tasks s)).
     { apply task_lt. intro Z. unfold tvs, tvw in Ww. rewrite Z in Ww. cbn in Ww. discriminate. }
@@ -565,14 +565,15 @@ Proof.
       * unfold set_pc. pc_case LI Lt R P Lc.
       * destruct (cacq (gtask s c)); [unfold set_pc|]; pc_case LI Lt R P Lc.
       * destruct (cacq (gtask s c)); [unfold set_pc|]; pc_case LI Lt R P Lc.
-    + (* PSub *)
+    + (* PSub e *)
       cbv zeta.
       assert (Park : forall s1, thrs s1 = thrs s -> tasks s1 = tasks s -> tk (gtask s c) = KCoro ->
                 LInv (set_run (set_pc s1 c PParked) t (TSusp c))).
       { intros s1 A B K. eapply (linv_eff s); [apply eff_set_run; unfold set_pc; apply eff_set_task; [apply eff_conv; assumption|exact Lc]|].
         apply lv_vacate; try assumption; try reflexivity. unfold tvw, kd, t_pc. cbn [fst snd tk].
         unfold gtask. rewrite B. exact K. }
-      destruct (requests s) eqn:Rq; cbn [fst].
+      destruct (ptr_eqb (requests s) e); cbn [fst]; [|unfold set_pc; pc_case LI Lt R P Lc].
+      destruct e; cbn [fst].
       * unfold set_pc. pc_case LI Lt R P Lc.
       * destruct (tk (gtask s c)) eqn:K; cbn [fst]; [apply Park; auto|pc_case LI Lt R P Lc].
       * destruct (tk (gtask s c)) eqn:K; cbn [fst]; [apply Park; auto|pc_case LI Lt R P Lc].
@@ -588,10 +589,12 @@ Proof.
       { intros Q. apply handover_linv with (vh := tvs s c); try assumption.
         - rewrite P. reflexivity.
         - eapply inv_veq; [|exact I]. veq_fields. intros x. symmetry. apply upd_id. }
-      destruct (queue s) eqn:Q; cbn [fst].
-      * destruct (requests s) eqn:Rq; cbn [fst]; [unfold set_pc| |unfold set_pc]; pc_case LI Lt R P Lc.
-      * apply Hand. discriminate.
-      * apply Hand. discriminate.
+      destruct (requests s) eqn:Rq; cbn [fst].
+      * eapply linv_eff; [apply eff_conv; reflexivity|exact LI].
+      * destruct (queue s) eqn:Q; cbn [fst]; [unfold set_pc; pc_case LI Lt R P Lc|apply Hand; discriminate|apply Hand; discriminate].
+      * destruct (queue s) eqn:Q; cbn [fst]; [unfold set_pc; pc_case LI Lt R P Lc|apply Hand; discriminate|apply Hand; discriminate].
+    + (* PUnlockCas *)
+      destruct (requests s) eqn:Rq; cbn [fst]; [unfold set_pc| |unfold set_pc]; pc_case LI Lt R P Lc.
     + (* PBqU *)
       assert (Cc : cls (v_tv (vw s) c) = CBqU) by (cbn [vw v_tv]; unfold tvs, tvw; rewrite P; reflexivity).
       destruct (inv_bq (vw s) c PDoor (length (tasks s) + 2) (tk (gtask s c), PUnlock, flag (gtask s c)) I)
